@@ -410,7 +410,15 @@ func body(r *explore.Run, rep *report.R, sc string, depth int, form usageForm, p
 		case "delete-u1", "delete-u2":
 			n := strings.TrimPrefix(ev, "delete-")
 			if s.Peek(usageKey(n)) != nil {
-				_ = user.Delete(ctx, mkUsage(n, form))
+				// With foreground propagation the Usage lingers (terminating,
+				// held by the garbage collector's finalizer) whether or not
+				// the Usage controller has put its own finalizer on it yet.
+				if r.Free(2, fmt.Sprintf("usage-delete-propagation%d(default,Foreground)", step)) == 1 {
+					_ = user.Delete(ctx, mkUsage(n, form), client.PropagationPolicy(metav1.DeletePropagationForeground))
+					desc = ev + " (foreground)"
+				} else {
+					_ = user.Delete(ctx, mkUsage(n, form))
+				}
 			}
 		case "delete-user":
 			_ = user.Delete(ctx, res(usingGK, "v1", "app"))
